@@ -279,7 +279,10 @@ def relocate(ctx, violations, known_keys, hit_keys):
     unproven = [o for o in ctx.obs if o.verdict != "discharged"]
     present = {o.key for o in unproven} | {alias[o.rule] + "|" + o.key.split("|", 1)[1] for o in unproven if o.rule in alias}
     rules_here = {o.rule for o in ctx.obs} | {alias[o.rule] for o in ctx.obs if o.rule in alias}
-    stale_rev = [k for k in ctx.reviewed if k not in present and k.split("|")[0] in rules_here]
+    # an entry can move only within the checks that use it on the unchanged tree (`scope`, tools/review_scope.py): an entry this property never
+    # used is not "stale" here - it would otherwise absorb the first new violation of its kind
+    stale_rev = [k for k in ctx.reviewed if k not in present and k.split("|")[0] in rules_here and
+                 ("scope" not in ctx.reviewed[k] or ctx.prop in ctx.reviewed[k]["scope"])]
     rev_by_sig = {}
     for k in stale_rev:
         rev_by_sig.setdefault(_sig(k), []).append(k)
